@@ -1,7 +1,7 @@
 import ZV.Model.C12
 import ZV.Drv.C11
 /-! line protocol for C12:
-    `c12 <specs> <verify-matrix> <start> <time> <name> <onecrl> <crlset> <ops>` (see go/props/c12/c12.go) -/
+    `c12 <specs> <verify-matrix> <start> <time> <name> <onecrl> <crlset> [<rev>] <ops>` (see go/props/c12/c12.go) -/
 namespace ZV.C12
 open ZV.C10 ZV.C11
 
@@ -47,6 +47,65 @@ def parseSet (s : String) : Option (Option CRLSet) :=
       | _, _ => none
     | _ => none
 
+/-- `<sec>` | `<sec>n<nsec>` -/
+def parseTime (s : String) : Option Time :=
+  match s.splitOn "n" with
+  | [a] => (parseInt a).map Time.ofSec
+  | [a, b] =>
+    match parseInt a, b.toNat? with
+    | some x, some y => some { sec := x, nsec := y }
+    | _, _ => none
+  | _ => none
+
+/-- `<time>` | `<time>@<clock>` | `z@<clock>` (VerifyTime = time.Time{}) -/
+def parseTimeClock (s : String) : Option (Time × Time) :=
+  match s.splitOn "@" with
+  | [a] => (parseTime a).map (fun t => (t, Time.ofSec 0))
+  | [a, b] =>
+    match (if a == "z" then some { sec := zeroSec, nsec := 0 } else parseTime a), parseTime b with
+    | some t, some c => some (t, c)
+    | _, _ => none
+  | _ => none
+
+def bit? (c : Char) : Option Bool := if c == '1' then some true else if c == '0' then some false else none
+def dig? (c : Char) : Option Nat := if c.isDigit then some (c.toNat - '0'.toNat) else none
+
+def parseAns (r i e : Char) : Option ProvAns :=
+  match bit? r, dig? i, bit? e with
+  | some r, some i, some e => some { revoked := r, info := if i == 0 then none else some i, err := e }
+  | _, _, _ => none
+
+structure RevTok where
+  shouldOCSP : Bool
+  shouldCRL : Bool
+  nOCSP : Nat
+  nCDP : Nat
+  provider : Option Provider
+
+/-- `-` | `<ShouldCheckOCSP><ShouldCheckCRL><len OCSPServer><len CRLDistributionPoints>/<n | s<r><i><e><r><i><e>>` -/
+def parseRev (s : String) : Option RevTok :=
+  if s == "-" then some { shouldOCSP := false, shouldCRL := false, nOCSP := 0, nCDP := 0, provider := none }
+  else match s.splitOn "/" with
+    | [a, p] =>
+      match a.toList with
+      | [so, sc, uo, uc] =>
+        match bit? so, bit? sc, dig? uo, dig? uc with
+        | some so, some sc, some uo, some uc =>
+          match p.toList with
+          | ['n'] => some { shouldOCSP := so, shouldCRL := sc, nOCSP := uo, nCDP := uc, provider := none }
+          | ['s', r1, i1, e1, r2, i2, e2] =>
+            match parseAns r1 i1 e1, parseAns r2 i2 e2 with
+            | some x, some y => some { shouldOCSP := so, shouldCRL := sc, nOCSP := uo, nCDP := uc, provider := some { ocsp := x, crl := y } }
+            | _, _ => none
+          | _ => none
+        | _, _, _, _ => none
+      | _ => none
+    | _ => none
+
+def showAns (a : ProvAns) : String :=
+  let b := fun (x : Bool) => if x then "1" else "0"
+  b a.revoked ++ (match a.info with | none => "-" | some i => toString i) ++ b a.err
+
 def showCh (cs : List Chain) : String :=
   let l := (cs.map (fun c => c.map (·.fp))).mergeSort lexLe
   if l.isEmpty then "-" else ";".intercalate (l.map (fun c => ">".intercalate (c.map toString)))
@@ -59,21 +118,34 @@ def showResult (r : Result) : String :=
     ++ " name=" ++ (match r.nameError with | none => "na" | some true => "err" | some false => "ok")
     ++ " psk=" ++ (match r.parentSK with | none => "-" | some k => showKey k)
 
+/-- the calls are observable only through a stub provider (`?` with the default provider) -/
+def showRev (stub : Bool) (r : Result) : String :=
+  " ocsp=" ++ (if !stub then "?" else match r.ocspCall with
+      | none => "skip" | some none => "nil" | some (some i) => showKey i.sk) ++ ":" ++ showAns r.ocsp
+    ++ " crl=" ++ (if !stub then "?" else if r.crlCall then "call" else "skip") ++ ":" ++ showAns r.crl
+
+def handle10 (specs vm start time name one set rev ops : String) : String :=
+  match parseCerts specs, parseMatrix vm with
+  | some cs, some m =>
+    match parseOps cs ops, start.toNat?.bind (nth? cs), parseTimeClock time, parseName name, parseOne one, parseSet set,
+        parseRev rev with
+    | some os, some c, some (t, clk), some n, some o, some s, some rv =>
+      match run (verOf m) Graph.empty os with
+      | .ok g =>
+        let opts : Opts :=
+          { time := t, name := n, oneCRL := o, crlSet := s, shouldOCSP := rv.shouldOCSP, shouldCRL := rv.shouldCRL,
+            provider := rv.provider, clock := clk, nOCSP := rv.nOCSP, nCDP := rv.nCDP }
+        match verify (verOf m) g c opts with
+        | .ok r => showResult r ++ (if rev == "-" then "" else showRev rv.provider.isSome r)
+        | _ => "panic"
+      | _ => "panic"
+    | _, _, _, _, _, _, _ => "bad-op"
+  | _, _ => "bad-op"
+
 def handle (args : List String) : String :=
   match args with
-  | [specs, vm, start, time, name, one, set, ops] =>
-    match parseCerts specs, parseMatrix vm with
-    | some cs, some m =>
-      match parseOps cs ops, start.toNat?.bind (nth? cs), parseInt time, parseName name, parseOne one, parseSet set with
-      | some os, some c, some t, some n, some o, some s =>
-        match run (verOf m) Graph.empty os with
-        | .ok g =>
-          match verify (verOf m) g c { time := t, name := n, oneCRL := o, crlSet := s } with
-          | .ok r => showResult r
-          | _ => "panic"
-        | _ => "panic"
-      | _, _, _, _, _, _ => "bad-op"
-    | _, _ => "bad-op"
+  | [specs, vm, start, time, name, one, set, ops] => handle10 specs vm start time name one set "-" ops
+  | [specs, vm, start, time, name, one, set, rev, ops] => handle10 specs vm start time name one set rev ops
   | _ => "bad-op"
 
 end ZV.C12
